@@ -58,8 +58,8 @@ def run(repo, rep, tier):
             "Plus a clang-AST rule that the C routine never stores through its input buffer.")
 
 
-def python_part(repo, rep, eng, iters, RULE):
-    entries = [fi for fi in repo.all_funcs() if is_entry(fi)]
+def python_part(repo, rep, eng, iters, RULE, only=None):
+    entries = [fi for fi in repo.all_funcs() if is_entry(fi) and (only is None or only(fi))]
     nparams = 0
     nviol = 0
     for fi in entries:
@@ -96,6 +96,8 @@ def python_part(repo, rep, eng, iters, RULE):
             rep.ok(RULE, f"{fi.file}:{fi.node.lineno} {fi.short}",
                    f"{len(own) - 1} parameter(s) + receiver: no write effect reaches them",
                    f"{len(s.effects)} effect(s) in summary, all on fresh or own objects", nontrivial=bool(s.effects) or len(own) > 1)
+    if only is not None:
+        return entries
     rep.analysed.update({
         "modules": len(repo.modules), "functions": len(eng.funcs), "entry_points": len(entries),
         "parameters": nparams, "sinks_examined": eng.sinks, "fixpoint_iterations": iters,
